@@ -1,4 +1,5 @@
 import EmmetProofs.ActionRanges
+import EmmetProofs.CssActionRanges
 /-! # C17 — editor action helpers select exactly the tag they should (HTML helpers, over ANY event list) -/
 namespace EmmetProps
 open H
@@ -25,5 +26,16 @@ theorem C17_class_tokens (value : List Ch) (offset : Nat) :
 
 /-- non-vacuity: `a  bc` at offset 7 has the tokens [7,8) and [10,12) -/
 example : tokenList [97, 32, 32, 98, 99] 7 = [(7, 8), (10, 12)] := by decide
+
+/-- `select_item_css`, next and previous, for EVERY source and EVERY position: the selected selector / declaration lies inside the
+source (`0 ≤ start ≤ end ≤ |source|`), and every range it lists — the full range, the value range and each value-token range (cut by
+`split_value` from the value's text) — lies inside the item. (`C.ItemOK`.) -/
+theorem C17_css_select_next (src : C.Str) (pos : Int) :
+    ∀ it, C.nextLoop src pos (C.scan src) none = some it → C.ItemOK src.length it := C.selectNextCss_ranges src pos
+theorem C17_css_select_prev (src : C.Str) (pos : Int) :
+    ∀ it, C.selectPrevCss src pos (C.scan src) = some it → C.ItemOK src.length it := C.selectPrevCss_ranges src pos
+
+example : (C.nextLoop ("a{b: c d;}".toList.map Char.toNat) 2 (C.scan ("a{b: c d;}".toList.map Char.toNat)) none).map (·.ranges)
+    = some [(2, 9), (5, 8), (5, 6), (7, 8)] := by decide +kernel
 
 end EmmetProps
